@@ -257,12 +257,12 @@ Proof.
 Qed.
 
 (* ---------- main theorem ---------- *)
-Theorem objlike_main (lead cat_fix str_white va_fix va_whole : bool) (max_level : nat) (input : list tok) :
+Theorem objlike_main (lead cat_fix str_white resub_fix va_fix va_whole : bool) (max_level : nat) (input : list tok) :
   forallb okd input = true ->
   S (List.length ds) < max_level ->
   exists n, forall fuel, n <= fuel ->
     exists out,
-      expand lead cat_fix str_white None false va_fix va_whole max_level (mtable ds) fuel input = Ok out /\
+      expand lead cat_fix str_white resub_fix None false va_fix va_whole max_level (mtable ds) fuel input = Ok out /\
       run_spec fuel (stable_of_defs ds) (map btok_of input) = Ok (map sp out).
 Proof.
   intros Hin Hlev.
@@ -270,7 +270,7 @@ Proof.
   assert (Hin_b : forallb okb (map btok_of input) = true).
   { rewrite forallb_forall. intros x Hx. apply in_map_iff in Hx. destruct Hx as (t & <- & Ht).
     apply okd_okb. rewrite forallb_forall in Hin. now apply Hin. }
-  destruct (expand_objlike lead cat_fix str_white va_fix va_whole max_level (mtable ds) Hobj_m input Hin_t) as (n1 & H1).
+  destruct (expand_objlike lead cat_fix str_white resub_fix va_fix va_whole max_level (mtable ds) Hobj_m input Hin_t) as (n1 & H1).
   { unfold names, mtable. now rewrite !map_length. }
   destruct (expandS_objlike (stable_of_defs ds) HSobj_s (map btok_of input) Hin_b) as (n2 & H2).
   exists (n1 + n2). intros fuel Hf. eexists. split; [apply H1; lia|].
